@@ -385,4 +385,316 @@ theorem simNetworkStack_ti {π : TPar} {A kw J : Nat} {sq : SimQueue} {net : Bot
     subst hs1; subst hs2
     exact ⟨hord, hq, hn2⟩
 
+
+/-! ### the embedded frameworks -/
+
+section
+variable {σ : Type} (ρ : Oracle σ)
+
+theorem run_machines {s t : Fw σ} (h : Run s t) : t.machines = s.machines :=
+  Run.inv (fun u : Fw σ => u.machines = s.machines)
+    (fun a b ha hp => by
+      cases hp with
+      | step mi st => rw [st.frame.machines]; exact ha
+      | setG => exact ha
+      | setAcct => simpa using ha
+      | callStart => exact ha) h rfl
+
+/-- one call of a framework whose clock values stay in a window of width `B`: valid state, no
+    fault of any kind, the output contract, the same machines -/
+theorem fw_call {t0 : Int} {B c : Nat} {fw : Fw σ} (hV : Valid fw) (hS : SigOK fw) (hG : Good t0 B c fw)
+    (hI : Inv04 fw) (hF : fw.fault = none) (hg : (c + 1) * B + B ≤ durMax) (es : List TEvent) (t : Int)
+    (ht : t0 ≤ t ∧ t ≤ t0 + (B : Int)) (rng : σ) :
+    Valid (triggerEvents ρ es t { fw with rng := rng, log := [] }) ∧
+    SigOK (triggerEvents ρ es t { fw with rng := rng, log := [] }) ∧
+    Good t0 B (c + 1) (triggerEvents ρ es t { fw with rng := rng, log := [] }) ∧
+    Inv04 (triggerEvents ρ es t { fw with rng := rng, log := [] }) ∧
+    (triggerEvents ρ es t { fw with rng := rng, log := [] }).fault = none ∧
+    (triggerEvents ρ es t { fw with rng := rng, log := [] }).machines = fw.machines := by
+  have hV0 : Valid ({ fw with rng := rng, log := [] } : Fw σ) := ⟨hV.lenRt, hV.lenAct, hV.ok, hV.cur⟩
+  have hS0 : SigOK ({ fw with rng := rng, log := [] } : Fw σ) := hS
+  have hG0 : Good t0 B c ({ fw with rng := rng, log := [] } : Fw σ) :=
+    ⟨⟨hG.1.nowLo, hG.1.nowHi, hG.1.stLo, hG.1.phi, hG.1.le⟩, hG.2⟩
+  have hI0 : Inv04 ({ fw with rng := rng, log := [] } : Fw σ) := ⟨hI.actLen, hI.rtLen, hI.slots⟩
+  obtain ⟨hV1, hS1, hN, _⟩ := okS_triggerEvents ρ es t _ hV0 hS0
+  have hG1 := good_triggerEvents ρ hg es t ht _ hG0
+  have hrun := triggerEvents_run ρ es t ({ fw with rng := rng, log := [] } : Fw σ)
+  refine ⟨hV1, hS1, hG1, hI0.run hrun, ?_, (run_machines hrun).trans rfl⟩
+  rcases hN with hN | ⟨_, hN⟩
+  · rw [hN]; exact hF
+  · exact absurd hN hG1.2
+
+/-- the framework invariant of one side of the simulation, after at most `c` calls -/
+structure FI (t0 : Int) (B c : Nat) (sd : Side σ) : Prop where
+  valid : Valid sd.fw
+  sig : SigOK sd.fw
+  good : Good t0 B c sd.fw
+  inv : Inv04 sd.fw
+  nofault : sd.fw.fault = none
+  lenA : sd.schedAction.length = sd.fw.machines.length
+  lenT : sd.schedTimer.length = sd.fw.machines.length
+
+/-- both sides, after at most `k` calls each -/
+def FwI (t0 : Int) (B k : Nat) (st : St σ) : Prop := ∀ c, ∃ cc, cc ≤ k ∧ FI t0 B cc (st.side c)
+
+theorem FwI.of_same {t0 : Int} {B k : Nat} {st st' : St σ} (h : FwI t0 B k st) (hs : SameFw st st') :
+    FwI t0 B k st' := by
+  intro c
+  obtain ⟨cc, hcc, hf⟩ := h c
+  obtain ⟨h1, h2, h3⟩ := hs c
+  refine ⟨cc, hcc, ?_⟩
+  exact ⟨by rw [h1]; exact hf.valid, by rw [h1]; exact hf.sig, by rw [h1]; exact hf.good, by rw [h1]; exact hf.inv,
+    by rw [h1]; exact hf.nofault, by rw [h1, h2]; exact hf.lenA, by rw [h1, h3]; exact hf.lenT⟩
+
+/-! ### `trigger_update` -/
+
+theorem timeout_ns_le {t m : Nat} (h : t ≤ m) : ((t * 1000 : Nat) : Int) ≤ ((m * 1000 : Nat) : Int) := by
+  have := Nat.mul_le_mul_right 1000 h
+  omega
+
+/-- storing one returned action: in range, and the new slot value respects the time bounds -/
+theorem applyAction_ti {π : TPar} {A : Nat} {now : Int} {sd : Side σ} {sq : SimQueue} {cl : Bool} {a : TAction} {n : Nat}
+    (hs : SlotI now sd) (hwf : sq.WF) (hord : sq.Ord) (hq : sq.AllQ (qpred π A now))
+    (hlenA : sd.schedAction.length = n) (hlenT : sd.schedTimer.length = n)
+    (hm : a.machine < n) (hto : C04.timesOK a = true) :
+    ∃ sd' sq', applyAction sd sq now cl a = .ok (sd', sq') ∧ SlotI now sd' ∧ sq'.WF ∧ sq'.Ord ∧
+      sq'.AllQ (qpred π A now) ∧ sd'.fw = sd.fw ∧ sd'.schedAction.length = n ∧ sd'.schedTimer.length = n := by
+  cases a with
+  | cancel m timer =>
+    simp only [TAction.machine] at hm
+    have h1 : ¬ (m ≥ sd.schedAction.length) := by omega
+    have h2 : ¬ (m ≥ sd.schedTimer.length) := by omega
+    simp only [applyAction, h1, h2, decide_false, Bool.false_and, Bool.false_eq_true, if_false]
+    cases timer with
+    | action =>
+      exact ⟨_, _, rfl, ⟨fun a' ha' => hs.acts a' (mem_set_none ha'), hs.tims, hs.untl⟩, hwf, hord, hq, rfl,
+        by simp [hlenA], hlenT⟩
+    | internal =>
+      exact ⟨_, _, rfl, ⟨hs.acts, fun t' ht' => hs.tims t' (mem_set_none ht'), hs.untl⟩, hwf, hord, hq, rfl,
+        hlenA, by simp [hlenT]⟩
+    | all =>
+      exact ⟨_, _, rfl, ⟨fun a' ha' => hs.acts a' (mem_set_none ha'), fun t' ht' => hs.tims t' (mem_set_none ht'), hs.untl⟩,
+        hwf, hord, hq, rfl, by simp [hlenA], by simp [hlenT]⟩
+  | sendPadding timeout b r m =>
+    simp only [TAction.machine] at hm
+    have h1 : ¬ (m ≥ sd.schedAction.length) := by omega
+    simp only [applyAction, h1, if_false]
+    simp only [C04.timesOK, decide_eq_true_eq] at hto
+    refine ⟨_, _, rfl, ⟨fun a' ha' => ?_, hs.tims, hs.untl⟩, hwf, hord, hq, rfl, by simp [hlenA], hlenT⟩
+    rcases mem_set_some ha' with ha' | ha'
+    · exact hs.acts a' ha'
+    · subst ha'
+      refine ⟨?_, trivial⟩
+      have := timeout_ns_le hto
+      show now + ((timeout * 1000 : Nat) : Int) ≤ now + (TB.TO : Int)
+      unfold TB.TO
+      omega
+  | blockOutgoing timeout du b r m =>
+    simp only [TAction.machine] at hm
+    have h1 : ¬ (m ≥ sd.schedAction.length) := by omega
+    simp only [applyAction, h1, if_false]
+    simp only [C04.timesOK, Bool.and_eq_true, decide_eq_true_eq] at hto
+    refine ⟨_, _, rfl, ⟨fun a' ha' => ?_, hs.tims, hs.untl⟩, hwf, hord, hq, rfl, by simp [hlenA], hlenT⟩
+    rcases mem_set_some ha' with ha' | ha'
+    · exact hs.acts a' ha'
+    · subst ha'
+      refine ⟨?_, hto.2⟩
+      have := timeout_ns_le hto.1
+      show now + ((timeout * 1000 : Nat) : Int) ≤ now + (TB.TO : Int)
+      unfold TB.TO
+      omega
+  | updateTimer du replace m =>
+    simp only [TAction.machine] at hm
+    simp only [C04.timesOK, decide_eq_true_eq] at hto
+    have hcur : ∃ cur, sd.schedTimer[m]? = some cur := ⟨_, List.getElem?_eq_getElem (by omega)⟩
+    obtain ⟨cur, hcur⟩ := hcur
+    simp only [applyAction, hcur]
+    by_cases hb : (timerUpdate cur now (du * 1000) replace).2 = true
+    · have hv := timerUpdate_set hb
+      simp only [hb, if_true]
+      refine ⟨_, _, rfl, ⟨hs.acts, fun t' ht' => ?_, hs.untl⟩, (pushSim_spec sq _ hwf).1, SimQueue.pushSim_ord _ hord,
+        hq.pushSim ?_, rfl, hlenA, by simp [hlenT]⟩
+      · rcases List.mem_or_eq_of_mem_set ht' with ht' | ht'
+        · exact hs.tims t' ht'
+        · rw [hv] at ht'
+          simp only [Option.some.injEq] at ht'
+          subst ht'
+          have := timeout_ns_le hto
+          show now + ((du * 1000 : Nat) : Int) ≤ now + (TB.TD : Int)
+          unfold TB.TD
+          omega
+      · show now ≤ now + (π.S : Int)
+        omega
+    · simp only [hb, Bool.false_eq_true, if_false]
+      exact ⟨_, _, rfl, hs, hwf, hord, hq, rfl, hlenA, hlenT⟩
+
+theorem applyActions_ti {π : TPar} {A : Nat} {now : Int} {cl : Bool} {n : Nat} :
+    ∀ (acts : List TAction) (sd : Side σ) (sq : SimQueue),
+    SlotI now sd → sq.WF → sq.Ord → sq.AllQ (qpred π A now) →
+    sd.schedAction.length = n → sd.schedTimer.length = n →
+    (∀ a ∈ acts, a.machine < n ∧ C04.timesOK a = true) →
+    ∃ sd' sq', applyActions sd sq now cl acts = .ok (sd', sq') ∧ SlotI now sd' ∧ sq'.WF ∧ sq'.Ord ∧
+      sq'.AllQ (qpred π A now) ∧ sd'.fw = sd.fw ∧ sd'.schedAction.length = n ∧ sd'.schedTimer.length = n := by
+  intro acts
+  induction acts with
+  | nil =>
+    intro sd sq hs hwf hord hq hlA hlT _
+    exact ⟨sd, sq, rfl, hs, hwf, hord, hq, rfl, hlA, hlT⟩
+  | cons a r ih =>
+    intro sd sq hs hwf hord hq hlA hlT hall
+    obtain ⟨sd1, sq1, h1, hs1, hwf1, hord1, hq1, hfw1, hlA1, hlT1⟩ :=
+      applyAction_ti (cl := cl) hs hwf hord hq hlA hlT (hall a (by simp)).1 (hall a (by simp)).2
+    obtain ⟨sd2, sq2, h2, hs2, hwf2, hord2, hq2, hfw2, hlA2, hlT2⟩ :=
+      ih sd1 sq1 hs1 hwf1 hord1 hq1 hlA1 hlT1 (fun x hx => hall x (by simp [hx]))
+    refine ⟨sd2, sq2, ?_, hs2, hwf2, hord2, hq2, hfw2.trans hfw1, hlA2, hlT2⟩
+    simp only [applyActions, h1, bind, Except.bind]
+    exact h2
+
+end
+
+
+section
+variable {σ : Type} (ρ : Oracle σ)
+
+theorem side_setSide_other (st : St σ) (c c' : Bool) (x : Side σ) (h : c' ≠ c) : (st.setSide c x).side c' = st.side c' := by
+  cases c <;> cases c' <;> first | exact absurd rfl h | rfl
+
+theorem PI.withSq {π : TPar} {A : Nat} {Hn : Int} {kw J : Nat} {st : St σ} (h : PI π A Hn kw J st)
+    {sq' : SimQueue} (o : σ) (hwf : sq'.WF) (hord : sq'.Ord) (hq : sq'.AllQ (qpred π A st.now)) :
+    PI π A Hn kw J { st with sq := sq', orc := o } :=
+  ⟨h.t0le, h.nowle, hwf, hord, hq, h.sides, h.net⟩
+
+/-- **`trigger_update` under the invariant**: the framework call does not fault (its clock stays
+    in the window), every returned action names an existing slot, and the new slot values respect
+    the time bounds -/
+theorem triggerUpdate_ti {π : TPar} {A : Nat} {Hn : Int} {kw J B k : Nat} {st : St σ} {next : SimEvent}
+    (h : PI π A Hn kw J st) (hf : FwI π.t0 B k st) (hg : (k + 1) * B + B ≤ durMax)
+    (hB : st.now ≤ π.t0 + (B : Int)) :
+    (∀ f, triggerUpdate ρ st next = .error f → f.isBug = true) ∧
+    (∀ acts st', triggerUpdate ρ st next = .ok (acts, st') →
+      PI π A Hn kw J st' ∧ FwI π.t0 B (k + 1) st' ∧ st'.now = st.now) := by
+  obtain ⟨cc, hcc, hfi⟩ := hf next.client
+  have hg' : (cc + 1) * B + B ≤ durMax := by
+    have : (cc + 1) * B ≤ (k + 1) * B := Nat.mul_le_mul_right _ (by omega)
+    omega
+  obtain ⟨hV1, hS1, hG1, hI1, hF1, hM1⟩ := fw_call ρ hfi.valid hfi.sig hfi.good hfi.inv hfi.nofault hg'
+    [next.event] st.now ⟨h.t0le, hB⟩ st.orc
+  have hout := hI1.outOK
+  have hacts : ∀ a ∈ (triggerEvents ρ [next.event] st.now { (st.side next.client).fw with rng := st.orc, log := [] }).actionsOut,
+      a.machine < (st.side next.client).fw.machines.length ∧ C04.timesOK a = true := by
+    intro a ha
+    unfold C04.outOK at hout
+    simp only [Bool.and_eq_true, List.all_eq_true] at hout
+    have hao := hout.2 a ha
+    unfold C04.actionOK at hao
+    rw [hM1] at hao
+    cases hm : (st.side next.client).fw.machines[a.machine]? with
+    | none => rw [hm] at hao; cases hao
+    | some m =>
+      rw [hm] at hao
+      simp only [Bool.and_eq_true] at hao
+      exact ⟨(List.getElem?_eq_some_iff.1 hm).1, hao.2⟩
+  have hsl : SlotI st.now ({ (st.side next.client) with
+      fw := triggerEvents ρ [next.event] st.now { (st.side next.client).fw with rng := st.orc, log := [] } } : Side σ) :=
+    ⟨(h.sides next.client).acts, (h.sides next.client).tims, (h.sides next.client).untl⟩
+  obtain ⟨sd1, sq1, happ, hs1, hwf1, hord1, hq1, hfw1, hlA1, hlT1⟩ :=
+    applyActions_ti (π := π) (A := A) (now := st.now) (cl := next.client)
+      (n := (st.side next.client).fw.machines.length) _ _ st.sq hsl h.wf h.ord h.q hfi.lenA hfi.lenT hacts
+  unfold triggerUpdate
+  simp only [hF1, happ, bind, Except.bind, pure, Except.pure]
+  refine ⟨fun f hf' => (by cases hf'), fun acts st' hs => ?_⟩
+  simp only [Except.ok.injEq, Prod.mk.injEq] at hs
+  obtain ⟨_, hst⟩ := hs
+  subst hst
+  refine ⟨(h.setSide next.client sd1 hs1).withSq _ hwf1 hord1 (by rw [setSide_now]; exact hq1), ?_, by simp⟩
+  intro c'
+  by_cases hc : c' = next.client
+  · subst hc
+    refine ⟨cc + 1, by omega, ?_⟩
+    show FI π.t0 B (cc + 1) ((st.setSide next.client sd1).side next.client)
+    rw [side_setSide_same]
+    simp only [] at hfw1
+    exact ⟨by rw [hfw1]; exact hV1, by rw [hfw1]; exact hS1, by rw [hfw1]; exact hG1, by rw [hfw1]; exact hI1,
+      by rw [hfw1]; exact hF1, by rw [hfw1, hM1]; exact hlA1, by rw [hfw1, hM1]; exact hlT1⟩
+  · obtain ⟨c2, hc2, hf2⟩ := hf c'
+    refine ⟨c2, by omega, ?_⟩
+    show FI π.t0 B c2 ((st.setSide next.client sd1).side c')
+    rw [side_setSide_other _ _ _ _ hc]
+    exact hf2
+
+/-- **One iteration of the main loop under the invariant**: no environmental fault, and the
+    invariant holds again with the age bound grown by `W`, the horizon by `S + W`, the window
+    bound by one stamp, the aggregate-delay budget by `2 D`, the call count by one. -/
+theorem step_ti {π : TPar} {A A' : Nat} {Hn : Int} {kw J B k : Nat} {st : St σ}
+    (h : PI π A Hn kw J st) (hf : FwI π.t0 B k st) (hok : π.OK)
+    (hJM : J + π.D + π.D ≤ π.JM) (hHb : π.Tm + π.JM ≤ Hn) (hAD : A + TB.W ≤ π.D) (hA' : A + TB.W ≤ A')
+    (hA'D : A' ≤ π.D) (hPD : π.P ≤ π.D) (hP : π.pw * (kw + 1) ≤ π.P)
+    (hg : (k + 1) * B + B ≤ durMax) (hB : Hn + ((π.S + TB.W : Nat) : Int) ≤ π.t0 + (B : Int)) :
+    (∀ f, step ρ st = .error f → f.isBug = true) ∧
+    (∀ r st', step ρ st = .ok (some (r, st')) →
+      PI π A' (Hn + ((π.S + TB.W : Nat) : Int)) (kw + 1) (J + π.D + π.D) st' ∧ FwI π.t0 B (k + 1) st') := by
+  have hpn := pickNext_ti hok (J := J) (by omega) hHb hAD (pickMeasure st + 1) st h
+  unfold step
+  cases hp : pickNext (pickMeasure st + 1) st with
+  | none =>
+    simp only [Option.getD_none, bind, Except.bind]
+    exact ⟨fun f hf' => (by cases hf'; rfl), fun r st' hs => (by cases hs)⟩
+  | some res =>
+    simp only [Option.getD_some]
+    cases res with
+    | error f0 =>
+      have := hpn.1 f0 hp
+      exact ⟨fun f hf' => (by simp only [bind, Except.bind] at hf'; cases hf'; exact this),
+             fun r st' hs => (by simp [bind, Except.bind] at hs)⟩
+    | ok pr =>
+      obtain ⟨next, st1⟩ := pr
+      obtain ⟨hp1, hs1, hn1, hev⟩ := hpn.2 next st1 hp
+      simp only [bind, Except.bind]
+      cases next with
+      | none => exact ⟨fun f hf' => (by simp [pure, Except.pure] at hf'), fun r st' hs => (by simp [pure, Except.pure] at hs)⟩
+      | some next =>
+        simp only []
+        obtain ⟨hle, hblk⟩ := hev next rfl
+        have hge := pickNext_time_ge _ _ _ _ hp
+        have hnb : ¬ next.time < st1.now := by omega
+        have hnow' : (if next.time > st1.now then next.time else st1.now) = next.time := by
+          split <;> omega
+        simp only [hnb, if_false, hnow']
+        have hp2 : PI π A' (Hn + ((π.S + TB.W : Nat) : Int)) kw (J + π.D) ({ st1 with now := next.time } : St σ) :=
+          hp1.advance (by omega) hle (by rw [hn1]; exact hblk) hA'
+        have hns := simNetworkStack_ti (next := next)
+          (flag := (({ st1 with now := next.time } : St σ).side next.client).blockingBypassable)
+          hp2.ord hp2.q hp2.net hok hA'D hPD hP rfl
+        cases hs : simNetworkStack next st1.sq (({ st1 with now := next.time } : St σ).side next.client).blockingBypassable
+            st1.net next.time with
+        | error f0 =>
+          exact ⟨fun f hf' => (by cases hf'; exact hns.1 _ hs), fun r st' hs' => (by cases hs')⟩
+        | ok v =>
+          obtain ⟨na, sq, net⟩ := v
+          simp only []
+          obtain ⟨hord3, hq3, hn3⟩ := hns.2 na sq net hs
+          have hwf3 := (simNetworkStack_conserve hp2.wf hs).1
+          have hp3 : PI π A' (Hn + ((π.S + TB.W : Nat) : Int)) (kw + 1) (J + π.D + π.D)
+              ({ ({ st1 with now := next.time } : St σ) with sq := sq, net := net } : St σ) :=
+            ⟨hp2.t0le, hp2.nowle, hwf3, hord3, hq3, hp2.sides, hn3⟩
+          have hf3 : FwI π.t0 B k ({ ({ st1 with now := next.time } : St σ) with sq := sq, net := net } : St σ) :=
+            fun c => (hf.of_same hs1) c
+          have htu := triggerUpdate_ti ρ (next := next) hp3 hf3 hg (by
+            show next.time ≤ π.t0 + (B : Int)
+            omega)
+          cases ht : triggerUpdate ρ ({ ({ st1 with now := next.time } : St σ) with sq := sq, net := net } : St σ) next with
+          | error f0 =>
+            exact ⟨fun f hf' => (by cases hf'; exact htu.1 _ ht), fun r st' hs' => (by cases hs')⟩
+          | ok v2 =>
+            obtain ⟨acts, st2⟩ := v2
+            obtain ⟨hp4, hf4, _⟩ := htu.2 acts st2 ht
+            exact ⟨fun f hf' => (by simp [pure, Except.pure] at hf'),
+                   fun r st' hs' => (by
+                    simp only [pure, Except.pure, Except.ok.injEq, Option.some.injEq, Prod.mk.injEq] at hs'
+                    obtain ⟨_, hst⟩ := hs'
+                    subst hst
+                    exact ⟨hp4, hf4⟩)⟩
+
+end
+
 end Mb.Sim
